@@ -9,7 +9,7 @@ package xlsx
 //@ spec func upperByte(b int) int = (b >= 'a' && b <= 'z') ? b - 32 : b
 //@ spec func letterByte(b int) bool = (b >= 'A' && b <= 'Z') || (b >= 'a' && b <= 'z')
 // the same fold over the upper-cased bytes of s
-//@ spec rec func colnumCI(s string, n int) int = n <= 0 ? 0 : colnumCI(s, n - 1) * 26 + (upperByte(s[n-1]) - 'A' + 1)
+//@ spec rec prefix func colnumCI(s string, n int) int = n <= 0 ? 0 : colnumCI(s, n - 1) * 26 + (upperByte(s[n-1]) - 'A' + 1)
 
 //@ func isLetter results (r)
 //@   property C17
@@ -25,6 +25,18 @@ package xlsx
 //@     invariant 0 <= $i && $i <= len(col) && result == colnumCI(old(col), $i) && result >= 0
 //@     invariant forall k int :: {old(col)[k]} 0 <= k && k < $i ==> letterByte(old(col)[k])
 //@     decreases len(col) - $i
+
+// A1 reference = letters (column, bijective base 26, case-insensitive) followed by a decimal row number >= 1.
+// On success: i = number of leading letters, 0 < i < len(ref); column = value of those letters - 1; row = number - 1.
+//@ func ParseCellRef results (col, row, err)
+//@   property C17
+//@   requires ascii: forall k int :: {ref[k]} 0 <= k && k < len(ref) ==> ref[k] < 128
+//@   ensures parsed: !err ==> exists i int :: 0 < i && i < len(ref) && (forall k int :: {ref[k]} 0 <= k && k < i ==> letterByte(ref[k])) && !letterByte(ref[i]) && col == colnumCI(ref, i) - 1 && row == strconv.Atoi(ref[i:len(ref)]) - 1 && row >= 0 && col >= 0
+//@   ensures rejects_no_letters: len(ref) > 0 && !letterByte(ref[0]) ==> err
+//@   ensures rejects_empty: len(ref) == 0 ==> err
+//@   ensures rejects_letters_only: (forall k int :: {ref[k]} 0 <= k && k < len(ref) ==> letterByte(ref[k])) ==> err
+//@   loop 0:
+//@     invariant 0 <= i && i <= len(ref) && forall k int :: {ref[k]} 0 <= k && k < i ==> letterByte(ref[k])
 
 //@ func (*Sheet) Cell results (c)
 //@   property C17
